@@ -624,6 +624,7 @@ type connectStreamingHandlerConn struct {
 	marshaler       connectStreamingMarshaler
 	unmarshaler     connectStreamingUnmarshaler
 	responseTrailer http.Header
+	receiveErr      error // the first error Receive returned, the end of the request included
 }
 
 func (hc *connectStreamingHandlerConn) Spec() Spec {
@@ -631,13 +632,19 @@ func (hc *connectStreamingHandlerConn) Spec() Spec {
 }
 
 func (hc *connectStreamingHandlerConn) Receive(msg any) error {
+	if hc.receiveErr != nil {
+		// The request has ended or is broken. Reading on could report a request
+		// that stopped in the middle of a message as cleanly finished.
+		return hc.receiveErr
+	}
 	if err := hc.unmarshaler.Unmarshal(msg); err != nil {
+		hc.receiveErr = err // already coded
 		if errors.Is(err, errSpecialEnvelope) {
 			// Clients may not send end-of-stream metadata. The sentinel wraps
 			// io.EOF, so passing it on would look like a clean end of the request.
-			return errorf(CodeInvalidArgument, "protocol error: client sent an end-of-stream envelope")
+			hc.receiveErr = errorf(CodeInvalidArgument, "protocol error: client sent an end-of-stream envelope")
 		}
-		return err
+		return hc.receiveErr
 	}
 	return nil // must be a literal nil: nil *Error is a non-nil error
 }
